@@ -26,25 +26,25 @@ def popSum64 (x : BitVec 64) : BitVec 32 :=
   (List.range 64).foldl (fun acc i => acc + BitVec.setWidth 32 ((x >>> i) &&& 1#64)) 0#32
 
 theorem bitcnt_eq_popSum (x : BitVec 32) : bitcnt x = popSum32 x := by
-  unfold bitcnt popSum32; simp only [List.range, List.range.loop, List.foldl]; bv_decide
+  unfold bitcnt popSum32; simp only [List.range, List.range.loop, List.foldl]; bv_decide (config := { timeout := 300 })
 
 theorem clz_eq (x : BitVec 32) : clz x = x.clz := by
-  unfold clz bitcnt; bv_decide
+  unfold clz bitcnt; bv_decide (config := { timeout := 300 })
 
 theorem ctz_eq (x : BitVec 32) : ctz x = x.reverse.clz := by
-  unfold ctz bitcnt; bv_decide
+  unfold ctz bitcnt; bv_decide (config := { timeout := 300 })
 
 /-- `ilog2` (precondition `x ≠ 0`, the C `assert`): position of the highest set bit -/
 theorem ilog2_eq (x : BitVec 32) (_h : x ≠ 0) : ilog2 x = 31#32 - x.clz := by
   unfold ilog2; rw [clz_eq]
 
 theorem const_pop_eq_popSum (c : BitVec 64) : w_const_pop c = popSum64 c := by
-  unfold w_const_pop popSum64; simp only [List.range, List.range.loop, List.foldl]; bv_decide
+  unfold w_const_pop popSum64; simp only [List.range, List.range.loop, List.foldl]; bv_decide (config := { timeout := 300 })
 
 /-- `const_lssb`: index of the lowest set bit, `-1` for zero -/
 theorem const_lssb_eq (c : BitVec 64) :
     w_const_lssb c = if c = 0 then (-1 : BitVec 32) else BitVec.setWidth 32 c.reverse.clz := by
-  unfold w_const_lssb; bv_decide
+  unfold w_const_lssb; bv_decide (config := { timeout := 300 })
 
 
 /-! ## From the bit-vector statements to the arithmetic wording of the property (kernel-only) -/
@@ -156,7 +156,7 @@ theorem regdump_field_extraction (reg n s : BitVec 32) (hn : 1#32 ≤ n) (hs : n
         >>> (ctz ((if n = 32#32 then 0xffffffff#32 else (1#32 <<< n) - 1#32) <<< s))
       = (reg >>> s) &&& (if n = 32#32 then 0xffffffff#32 else (1#32 <<< n) - 1#32) := by
   unfold ctz bitcnt
-  bv_decide
+  bv_decide (config := { timeout := 300 })
 
 -- non-vacuity / sanity: concrete values through the generated code
 example : bitcnt 0xF0F01234#32 = 13#32 ∧ clz 0x00010000#32 = 15#32 ∧ ctz 0x00010000#32 = 16#32
